@@ -12,7 +12,7 @@ import vlib
 from harness.speccommon import *
 
 LEVEL_TEXT = ('Lean 4 theorems about an executable list model of Spectrum whose comparison operators and scalar formulas (crop guards and drop '
-              'tests, integrate\'s keep test, trim\'s tolerance test and refusal, pad\'s sample counts, bin mid-points/end edges and the '
+              'tests, integrate\'s keep test, trim\'s tolerance test and refusal and the slice bounds it keeps (Gen.trimSliceStart/Stop; trim_slice_is_code), append\'s overlap test (Gen.appendRefusesAt; append_guard_is_code, append_guard_refuses_touching, append_single_refused), pad\'s sample counts, bin mid-points/end edges and the '
               'trapezoid/Simpson terms) are regenerated from radiometry.py (Gen/SpectrumOps.lean): the invariant (strictly increasing wavelengths, '
               'one value per wavelength) is preserved by crop/trim/pad/append/resample and by every history, also when an operation is refused; '
               'crop keeps exactly the closed range and is covariant under a change of unit (crop_scale_covariant); trim keeps first-to-last '
@@ -25,7 +25,7 @@ LEVEL_NOTE = ('partial: non-negativity of Simpson bins for integer-dtype centres
 TECHNIQUE = 'Lean 4 proof (induction over lists and over operation histories) about a hand model + per-step differential correspondence at ℚ'
 GEN = ['SpectrumOps', 'Units']
 OPS = ['C15']
-RULE = ('streams: histories, integrate, setvalue (sample/bin, assign `value`/`wave`, sample/bin again on the same object), bin (zero-raw-sum stream in three sub-classes: dark spectrum, centres outside the data, sample points of the rule on zeros of a non-dark spectrum [known finding]; own/other/default unit, integer-dtype centres int16/32/64 up to the top of the range), unit (sample/resample across units), extremes (number scales, histories > 32 ops in search/thorough). histories of 5..12 (quick) / 5..30 (thorough) operations drawn from crop/trim/pad/append/resample with parameters relative to the '
+RULE = ('streams: badarg (every refusal on an ARGUMENT outside the documented options: append of a non-Spectrum, integrate(method=?), pad(mode=?), pad(sampling=left/right/list) i.e. the three raises of _sampling, bin(ends=?) for both rules, bin(interp_method=?): must be ValueError with the spectrum bit-identical afterwards), histories, integrate, setvalue (sample/bin, assign `value`/`wave`, sample/bin again on the same object), bin (zero-raw-sum stream in three sub-classes: dark spectrum, centres outside the data, sample points of the rule on zeros of a non-dark spectrum [known finding]; own/other/default unit, integer-dtype centres int16/32/64 up to the top of the range), unit (sample/resample across units), extremes (number scales, histories > 32 ops in search/thorough). histories of 5..12 (quick) / 5..30 (thorough) operations drawn from crop/trim/pad/append/resample with parameters relative to the '
         'current range (inside, at, and outside it; refusals included: non-increasing grids, overlapping appends, wrong lengths, '
         'non-positive pads, tol>=1) on dyadic spectra of 2..10 samples (one in five stored as int64); integrate with random bounds, linear/additive/exactness probes; '
         'bin with 2..7 centres (uniform and non-uniform), trapz/simps, symmetric/inside, preserve_power on/off, scalar and pair '
@@ -41,7 +41,7 @@ UNPROVEN = [            'integrate theorems (linearity, additivity at a sample, 
             'Simpson bins: exactness for linear spectra on uniform centres is proved for symmetric ends, float centres, no power preservation (bin_simps_exact_linear_uniform); ends="inside" (quarter points), integer-dtype centres and preserve_power: oracle only',
             'integrate(method="simps") (scipy.integrate.simpson is not modelled)',
             ]
-ASSUMPTIONS = ['preserve_power classes are told apart by the un-normalised bins of the same call (a second call with preserve_power=False on an equal spectrum; its sum is compared with the model\'s raw sum): raw sum exactly zero and integral zero => all-zero bins demanded; raw sum exactly zero and integral non-zero => known finding; otherwise the bins must sum to the integral',
+ASSUMPTIONS = ['badarg stream: spectra of >= 3 samples only — pad(sampling="left"/"right") on a TWO-sample spectrum passes _sampling\'s length test, _sampling(wave[0]) of a scalar returns None and pad fails with an accidental TypeError (spectrum unchanged); not generated, no clause covers it; a string other than min/left/right as sampling is np.isscalar and likewise ends in a TypeError', 'preserve_power classes are told apart by the un-normalised bins of the same call (a second call with preserve_power=False on an equal spectrum; its sum is compared with the model\'s raw sum): raw sum exactly zero and integral zero => all-zero bins demanded; raw sum exactly zero and integral non-zero => known finding; otherwise the bins must sum to the integral',
                'append() ignores the wavelength unit of the appended spectrum (its numbers are appended as they are and keep the caller\'s unit label): generated (tag append:other-unit), model and oracle follow the code — the result is well-formed, which is all the property claims; reported as an observation',
                'bin(interp_method="simps", preserve_power=True) raises ValueError (from scipy.integrate.simpson) when no data sample lies inside the span of the centres; such calls are outside the modelled scope',
                'spectra are 1-D with finite data; histories run under every unit label (nm/um/angstrom/m; also at x2^-30 and x2^10 number scales); sample, resample and bin are also run with abscissae in another unit or the default nm (the code converts a copy)',
@@ -185,6 +185,11 @@ def generate(rng, tier):
         out.append({'kind': 'setvalue', 'wave': w, 'value': v, 'value2': [dyadic(rng, 0, 16, 3) for _ in w], 'shift': [0.0, 0.5, 4.0][int(rng.integers(0, 3))],
                     'fr': [FR[int(x)] for x in sorted(rng.choice(len(FR), int(rng.integers(2, 6)), replace=False))],
                     'fill': [0.0, 1.5, [0.5, 2.0]][int(rng.integers(0, 3))], 'fill2': [0.0, 2.5][int(rng.integers(0, 2))], 'method': ['linear', 'linear', 'quadratic'][int(rng.integers(0, 3))]})
+    # refusals on a bad ARGUMENT (not on bad data): every `raise ValueError` of append/integrate/pad/_sampling/bin that no other stream reaches
+    for i, call in enumerate(BADARG):
+        for _ in range(2 if tier == 'quick' else 6):
+            w, v = _spec(rng, n=int(rng.integers(3, 9)))
+            out.append({'kind': 'badarg', 'wave': w, 'value': v, 'call': call, 'lo': w[0] - dyadic(rng, 1, 4, 2), 'hi': w[-1] + dyadic(rng, 1, 4, 2)})
     # storage dtype: integer-valued spectra (0/1 bandpasses, counts) stored as int64
     for c in out:
         if c.get('linear') is None and '_corpus' not in c and rng.integers(0, 5) == 0:
@@ -192,11 +197,30 @@ def generate(rng, tier):
             c['value'] = [float(int(v)) for v in c['value']]
     return out
 
+BADARG = ['append:ndarray', 'append:float', 'integrate:method', 'pad:mode', 'pad:sampling-left', 'pad:sampling-right', 'pad:sampling-list',
+          'bin:trapz-ends', 'bin:simps-ends', 'bin:method']
+
+def _badarg_call(s, c):
+    k, lo, hi = c['call'], c['lo'], c['hi']
+    cen = np.linspace(c['wave'][0], c['wave'][-1], 4)
+    if k == 'append:ndarray': return s.append(np.array([hi, hi + 1.0]))
+    if k == 'append:float': return s.append(hi)
+    if k == 'integrate:method': return s.integrate(method='romberg')
+    if k == 'pad:mode': return s.pad((lo, hi), mode='reflect')
+    if k == 'pad:sampling-left': return s.pad((lo, hi), sampling='left')
+    if k == 'pad:sampling-right': return s.pad((lo, hi), sampling='right')
+    if k == 'pad:sampling-list': return s.pad((lo, hi), sampling=[0.5, 0.25])
+    if k == 'bin:trapz-ends': return s.bin(cen, interp_method='trapz', ends='outside')
+    if k == 'bin:simps-ends': return s.bin(cen, interp_method='simps', ends='outside')
+    if k == 'bin:method': return s.bin(cen, interp_method='romberg')
+    raise KeyError(k)
+
 def _vals(c):
     v = np.array(c['value'])
     return v.astype(np.int64) if c.get('dtype') == 'int' else v
 
 def signature(c):
+    if c['kind'] == 'badarg': return 'badarg %s n=%d %s' % (c['call'], len(c['wave']), c['wave'][:2])
     if c['kind'] == 'history': return 'history%s%s n=%d %s %s' % (c.get('unit', ''), '' if 'hscale' not in c else '*%g' % c['hscale'], len(c['wave']), ','.join(o['k'] for o in c['ops']), c['wave'][:2])
     if c['kind'] == 'setvalue': return 'setvalue n=%d %s %s %s %s' % (len(c['wave']), c['fr'], c['shift'], c['method'], c['wave'][:2])
     if c['kind'] == 'unit': return 'unit %s>%s%s n=%d %s %s' % (c['unit'], c['req'], '*' if c['omit_unit'] else '', len(c['wave']), c['fr'], c['wave'][:2])
@@ -212,6 +236,7 @@ def nontrivial(c):
 
 def tags(c):
     t = [c['kind'], 'dtype:' + c.get('dtype', 'float')]
+    if c['kind'] == 'badarg': t.append('badarg:' + c['call'])
     if c['kind'] == 'history': t += sorted({'op:' + o['k'] for o in c['ops']}) + ['scale:%g' % c.get('hscale', 1.0), 'history-unit:' + c.get('unit', 'nm')] + (['append:other-unit'] if any(o.get('ounit') not in (None, c.get('unit', 'nm')) for o in c['ops']) else []) + (['long-history'] if len(c['ops']) > 32 else [])
     if c['kind'] == 'bin':
         t += ['bin:' + ('simps' if c['simps'] else 'trapz'), 'bin:' + c['ends'], 'bin:unit=' + c['unit'], 'bin:pp=%s' % c['pp'],
@@ -289,6 +314,15 @@ def _impl(c):
     with warnings.catch_warnings():
         warnings.simplefilter('ignore')
         k = c['kind']
+        if k == 'badarg':
+            s = R.Spectrum(np.array(c['wave']), _vals(c))
+            before = _state(s)
+            try:
+                r = _badarg_call(s, c)
+                res = {'returned': repr(type(r).__name__)}
+            except Exception as e:
+                res = {'exc': type(e).__name__, 'msg': str(e)[:120]}
+            return {'before': before, 'after': _state(s), 'res': res}
         if k == 'history':
             s = R.Spectrum(np.array(c['wave']), _vals(c), waveunit=c.get('unit', 'nm'))
             steps = []
@@ -449,7 +483,7 @@ def _op_req(p):
 
 def requests(c, io):
     k = c['kind']
-    if '_harness_exc' in io or 'guard' in io: return []
+    if '_harness_exc' in io or 'guard' in io or k == 'badarg': return []
     if k == 'history':
         out = []
         for st in io['steps']:
@@ -488,7 +522,7 @@ def _fl(ps): return [float(unq(p)) for p in ps]
 
 def compare(c, io, mo):
     k = c['kind']
-    if 'guard' in io: return None
+    if 'guard' in io or k == 'badarg': return None
     if k == 'history':
         live = [st for st in io['steps'] if not st.get('skipped')]
         for i, (st, m) in enumerate(zip(live, mo)):
@@ -561,6 +595,11 @@ def _is_block(small, big):
 def oracle(c, io):
     k = c['kind']
     if 'guard' in io: return f"{k} on a spectrum of {len(c['wave'])} samples did not finish within its time/memory budget ({io['guard']})"
+    if k == 'badarg':
+        # a call with an argument outside the documented set is refused with ValueError and leaves the spectrum as it was
+        if io['res'].get('exc') != 'ValueError': return f"{c['call']}: an argument outside the documented options is not refused with ValueError: {io['res']}"
+        if io['after'] != io['before']: return f"{c['call']}: the refused call changed the spectrum: {io['before']} -> {io['after']}"
+        return _wf(io['after'])
     if k == 'history':
         for i, st in enumerate(io['steps']):
             p, b, a = st['p'], st['before'], st['after']
